@@ -274,6 +274,7 @@ def handleBlob (toks : List String) : String :=
     if t == "o" then some .open else if t == "x" then some .damage else if t == "d" then some .delete else if t == "n" then some .construct
     else match t.splitOn ":" with
       | ["b", ds, names] => some (.build ds.toNat! ((names.splitOn ",").filter (· ≠ "")))
+      | ["i", ds, names] => some (.install ds.toNat! ((names.splitOn ",").filter (· ≠ "")))
       | _ => none
   let (_, outs) := ({} : BlobDir).run ops
   let showOut : BlobOut → String
